@@ -45,7 +45,8 @@ def main(argv=None) -> int:
                 return 1
             print(f"replay: {v['rule']} {v['construct']} [{v['detail']}] no longer fails on the current tree")
             return 0
-        code, rep = run_property(prop, args.tier)
+        # OPTYX_NO_EVIDENCE=1: dry run used by tools/run_seeded.py while /repo carries a seeded patch
+        code, rep = run_property(prop, args.tier, write=not os.environ.get("OPTYX_NO_EVIDENCE"))
         if code == 0 and args.tier == "thorough":
             from .selftest import runner
 
